@@ -263,6 +263,22 @@ def check(repo):
 
     # ------------------------------------------------------------------ R8.3 cross-checks
     _check_cross(repo, r3)
+
+    # ------------------------------------------------------------------ R8.4 parameter-dependent agreements hold for every configuration
+    r4 = Rule("R8.4", "agreements that depend on configuration parameters hold symbolically, i.e. for every accepted configuration")
+    rules.append(r4)
+    from . import c01, c03, c05
+    for mod, rid, what in ((c01, "R1.2", "block geometry written vs parsed"), (c03, "R3.1", "wire-format field lengths"), (c05, "R5.1", "real vs filler entry lengths")):
+        for rr in mod.check(repo):
+            if rr.id != rid:
+                continue
+            r4.obligations += rr.obligations
+            r4.discharged += rr.discharged
+            r4.instances.append({"imported": "%s (%s)" % (rid, what), "obligations": rr.obligations})
+            for f in rr.findings:
+                f.rule = "R8.4"
+                f.message = "for some accepted configuration this disagrees (%s, %s): %s" % (rid, what, f.message)
+                r4.findings.append(f)
     return rules
 
 
